@@ -697,7 +697,7 @@ func rogueSuite(seed uint64, tier, outDir string) (*core.Result, error) {
 	}
 	if thorough {
 		for n := 0; n <= 65535; n++ {
-			if n%16 == 0 || n < 1500 {
+			if n%8 == 0 || n < 1500 {
 				doSweep(n, n, byte(n), time.Now().Unix(), "sweep.all")
 			}
 		}
@@ -850,7 +850,7 @@ func rogueSuite(seed uint64, tier, outDir string) (*core.Result, error) {
 	// ================= C. client histories
 	nh := 24
 	if thorough {
-		nh = 480
+		nh = 560
 	}
 	type job struct {
 		idx  int
